@@ -26,6 +26,7 @@ CONSTANTS MaxBlocks,      \* 1..3
           CfiLayouts,     \* subset of {"none","proc_all","proc_each","proc_rs"}
           Isa,            \* "x64" | "ia32" | "arm64": instruction sizes of the rendered module
           WithScopes,     \* BOOLEAN: generate register_insert(AllBlocksScope(ENTRY), ..) requests
+          AlignOpts,      \* subset of {0, 4, 16}: alignment aux data on the first block (0 = none)
           InsFns,         \* subset of {"none", "ret", "loop"}: register_insert_function("newfn", ..)
           Emit            \* BOOLEAN: print cases
 
@@ -96,7 +97,7 @@ MergeCfi(cs) ==
          <<sorted[k], FlattenSeq([i \in 1..Len(SelectSeq(cs, LAMBDA c : c[1] = sorted[k])) |->
                                      SelectSeq(cs, LAMBDA c : c[1] = sorted[k])[i][2]])>>]
 
-MkBlock(i, nb, tpl, tgtIdx, layout, endSym, annMode, annAt, cl, noSym) ==
+MkBlock(i, nb, tpl, tgtIdx, layout, endSym, annMode, annAt, cl, noSym, al) ==
   LET units == TemplateUnits(tpl, i, BName(tgtIdx))
       f == IF IsData(tpl) THEN "" ELSE FnOf(layout, i, nb)
   IN  [kind |-> IF IsData(tpl) THEN "data" ELSE "code",
@@ -107,11 +108,12 @@ MkBlock(i, nb, tpl, tgtIdx, layout, endSym, annMode, annAt, cl, noSym) ==
        entry |-> (f # "" /\ f = BName(i)),
        ann |-> IF annMode # "none" /\ annAt[1] = i
                THEN << <<annAt[2], "comments", annMode, "c">> >> ELSE <<>>,
-       cfi |-> MergeCfi(CfiOf(cl, i, nb, units, IsData(tpl)))]
+       cfi |-> MergeCfi(CfiOf(cl, i, nb, units, IsData(tpl))),
+       align |-> IF i = 1 THEN al ELSE 0]
 
 ShapeParams ==
   {p \in [nb : 1..MaxBlocks, tpl : [1..MaxBlocks -> Templates], tgt : 1..MaxBlocks,
-          layout : FnLayouts, es : SUBSET (1..MaxBlocks), ns : SUBSET (1..MaxBlocks), am : AnnModes, cl : CfiLayouts,
+          layout : FnLayouts, es : SUBSET (1..MaxBlocks), ns : SUBSET (1..MaxBlocks), am : AnnModes, cl : CfiLayouts, al : AlignOpts,
           annAt : (1..MaxBlocks) \X (0..3)] :
      /\ \A i \in (p.nb + 1)..MaxBlocks : p.tpl[i] = CHOOSE x \in Templates : TRUE
      /\ p.tgt <= p.nb
@@ -132,7 +134,7 @@ MkShape(p) ==
   [isa |-> Isa, fmt |-> "elf",
    sections |-> <<[name |-> ".text",
                    blocks |-> [i \in 1..p.nb |->
-                       MkBlock(i, p.nb, p.tpl[i], p.tgt, p.layout, i \in p.es, p.am, p.annAt, p.cl, i \in p.ns)]]>>]
+                       MkBlock(i, p.nb, p.tpl[i], p.tgt, p.layout, i \in p.es, p.am, p.annAt, p.cl, i \in p.ns, p.al)]]>>]
 
 (***************************************************************************)
 (* The abstract pre-state of a shape, in the projection's format, so that  *)
@@ -193,7 +195,7 @@ AbsState(sh) ==
                  cfi |-> [q \in 1..Len(bs[i].cfi) |->
                             [d |-> bs[i].cfi[q][1],
                              ds |-> [z \in 1..Len(bs[i].cfi[q][2]) |-> AbsDir(bs[i].cfi[q][2][z])]]],
-                 al |-> 0, inside |-> TRUE]
+                 al |-> bs[i].align, inside |-> TRUE]
       iann == FlattenSeq([i \in 1..Len(bs) |->
                  LET a == SelectSeq(bs[i].ann, LAMBDA x : x[3] = "bi")
                  IN  [q \in 1..Len(a) |-> [p |-> pos[i - 1] + a[q][1], t |-> a[q][2], v |-> a[q][4], ok |-> TRUE]]])
@@ -237,7 +239,7 @@ PatchCfiOf(kind) ==
                                  [o |-> 2, ds |-> <<dd("restore_state", <<>>)>>]>>
        [] OTHER -> <<>>
 AbsPatch(kind, id) ==
-  LET p == AbsPatch0(IF kind \in {"cfi", "cfistate"} THEN "plain2" ELSE kind, id)
+  LET p == AbsPatch0(IF kind \in {"cfi", "cfistate", "align"} THEN "plain2" ELSE kind, id)
   IN  [units |-> p.units, labels |-> p.labels, sx |-> p.sx, sxs |-> p.sxs,
        cfi |-> PatchCfiOf(kind),
        n |-> Sum([j \in 1..Len(p.units) |-> p.units[j].n])]
